@@ -480,9 +480,14 @@ func (c *Cron) scheduleLocked(ctx *core.Context, job *CronJob, checkLimit bool) 
 			// The expression has no (further) occurrence,
 			// say "0 0 30 2 *".  The zero time would be due
 			// at once, again and again.
-			c.rem(ctx, job.Id)
-			err := fmt.Errorf("schedule '%s' has no next occurrence", job.Schedule)
-			core.Log(core.WARN|CRON, ctx, "Cron.schedule", "id", job.Id, "error", err)
+			//
+			// Such a job simply never runs.  (Refusing it
+			// instead turned out badly: the state's add
+			// hook failed after the old job of a replaced
+			// rule was gone, and a location holding such a
+			// rule could not be loaded.)
+			core.Log(core.WARN|CRON, ctx, "Cron.schedule", "id", job.Id, "schedule", job.Schedule, "warning", "no next occurrence")
+			_, err := c.rem(ctx, job.Id)
 			return err
 		}
 	}
